@@ -110,6 +110,11 @@ SLateKillNotBeforeGrace(o) == LateStarter(o) /\ o.onint = "ignore" /\ o.x = Neve
                                  o.last + Delta + StartLag + 3 * o.jit >= o.start + Grace(o.D)
 SLateKillOnTime(o)    == LateStarter(o) /\ o.onint = "ignore" /\ o.x = Never /\ ~o.hung =>
                             o.selfexit = Never /\ o.last <= o.start + Grace(o.D) + o.s
+\* ... and the same from facts a slow machine cannot shift the wrong way: the command was started no earlier than what ran
+\* in front of it was last alive (prevend), it is killed a grace period after it was started, and its last sign of life is
+\* at most one silence (gap) before that
+HLateKillNotBeforeGrace(o) == LateStarter(o) /\ o.onint = "ignore" /\ o.x = Never /\ ~o.hung /\ o.prevend # Never =>
+                                 o.last + 3 * Delta + o.gap >= o.prevend + Grace(o.D)
 \* RunT and all its subtests finish by the deadline
 SDoneByDeadline(o)    == ~o.hung => o.done <= o.D + o.s /\ o.rundone <= o.D + o.srun
 \* scripts that finish earlier are not held back
@@ -118,5 +123,5 @@ SEarlyUndelayed(o)    == Early(o) /\ ~o.hung => o.done <= o.selfexit + o.s
 AllLaws(o) == /\ HFinished(o) /\ HNotEarlyInt(o) /\ HInterruptedIfBlocked(o) /\ HVerdictBlocked(o)
               /\ HVerdictEarly(o) /\ HVerdictBoundary(o) /\ HNoChildLeft(o) /\ HNotEarlyTimeout(o)
               /\ SIntOnTime(o) /\ SKillOnTime(o) /\ SKillNotBeforeGrace(o) /\ SDoneByDeadline(o) /\ SEarlyUndelayed(o)
-              /\ SLateKillNotBeforeGrace(o) /\ SLateKillOnTime(o)
+              /\ SLateKillNotBeforeGrace(o) /\ SLateKillOnTime(o) /\ HLateKillNotBeforeGrace(o)
 =============================================================================
